@@ -45,6 +45,33 @@ Theorem C16_unsupported_variant_panics : forall key v pid ps ib num ippt rest,
   compute_hmac key ((num, ippt) :: rest) ib = Panic PUnimplemented.
 Proof. exact compute_hmac_unsupported. Qed.
 
+(* --- signing again (key rotation, re-signing after a change, a block built with results or decoded from CBOR): compute_hmac
+       first clears `security_results` (security.rs:531), so the outcome is that of signing the fresh block — exactly one result
+       set per IPPT entry, under the LAST key; nothing of an earlier signature survives --- *)
+Theorem C16_results_ignored : forall key ippts ib r,
+  compute_hmac key ippts (set_ib_results ib r) = compute_hmac key ippts ib.
+Proof. intros key ippts ib r. apply compute_hmac_ignores_results. Qed.
+Theorem C16_resign_replaces : forall k1 k2 ippts1 ippts2 ib ib1,
+  compute_hmac k1 ippts1 ib = Ok ib1 ->
+  compute_hmac k2 ippts2 ib1 = compute_hmac k2 ippts2 ib.
+Proof. intros k1 k2 ippts1 ippts2 ib ib1. apply compute_hmac_resign. Qed.
+(* ... and therefore the signed-twice block serializes with the HMACs of the last key only *)
+Theorem C16_resign_pipeline : forall k1 ippts1 key v pid ps ib ib1 ippts,
+  compute_hmac k1 ippts1 ib = Ok ib1 ->
+  ib_params ib = Some ps -> bp_sha ps = Some (pid, v) ->
+  v = HMAC_SHA_256 \/ v = HMAC_SHA_384 \/ v = HMAC_SHA_512 ->
+  map fst ippts = ib_targets ib -> params_present (ib_ctx_flags ib) = true ->
+  exists ib', compute_hmac key ippts ib1 = Ok ib' /\
+    ib_results ib' = map (fun nm => [(RESULT_EXPECTED_HMAC, sha2_mac v key (snd nm))]) ippts /\
+    asb_to_cbor ib' = Ok (asb_bytes (mkasb (ib_targets ib) (ib_ctx_id ib) (ib_ctx_flags ib) (ib_source ib) (params_items ps)
+                                          (map (fun nm => hmac_result_set (sha2_mac v key (snd nm))) ippts))).
+Proof.
+  intros k1 ippts1 key v pid ps ib ib1 ippts H1 Hp Hs Hv Ht Hf.
+  destruct (bib_pipeline key v pid ps ib ippts Hp Hs Hv Ht Hf) as (ib' & Hc & Hr & Ha).
+  exists ib'. split; [|split; assumption].
+  rewrite <- Hc. apply (compute_hmac_resign hmac_sha2 k1 key ippts1 ippts ib ib1 H1).
+Qed.
+
 (* --- the ASB bytes are the concatenation of `ser` of the RFC 9172 3.6 items, for a consistent block (parameters given
        and the "parameters present" flag set).  Not covered, kept as the code has it: with `security_context_parameters =
        None` (impossible through the builder) the code emits CBOR null where the RFC omits the field. --- *)
@@ -97,6 +124,9 @@ Check C16_result_shape : forall key v pid ps ib ippts,
   (forall nm, In nm ippts -> In (fst nm) (ib_targets ib)) ->
   compute_hmac key ippts ib =
     Ok (set_ib_results ib (map (fun nm => [(RESULT_EXPECTED_HMAC, sha2_mac v key (snd nm))]) ippts)).
+Check C16_resign_replaces : forall k1 k2 ippts1 ippts2 ib ib1,
+  compute_hmac k1 ippts1 ib = Ok ib1 ->
+  compute_hmac k2 ippts2 ib1 = compute_hmac k2 ippts2 ib.
 Check C16_asb_layout : forall ib ps rs,
   ib_params ib = Some ps -> params_present (ib_ctx_flags ib) = true ->
   asb_results (length (ib_targets ib)) (ib_results ib) = Ok rs ->
@@ -161,6 +191,22 @@ Module C16Examples.
     hmac_result_set mac <> [(5, BStr mac)].      (* what the pinned code produced for a target with block number 5 *)
   Proof. intros mac H. inversion H. Qed.
 
+  (* signing twice: first with the all-zero key, then with the RFC key — only the RFC signature remains *)
+  Example a1_resign :
+    rmap ib_results (bind (compute_hmac (repeat_byte x00 16) [(1, ippt)] a1_ib) (compute_hmac key9173 [(1, ippt)]))
+    = Ok [[(1, signature)]].
+  Proof. vm_compute. reflexivity. Qed.
+  (* the seeded change C16-m1 (results not reset: the loop pushes onto what the block already carries), kept machine-checked:
+     a second signature then sits BEHIND the stale one and to_cbor (which reads result i for target i) emits the stale one *)
+  Definition compute_hmac_noreset (key : list byte) (ippts : list (N * list byte)) (ib : integrity_block) : res integrity_block :=
+    do rs <- hmac_loop hmac_sha2 ib key ippts (ib_results ib); Ok (set_ib_results ib rs).
+  Definition stale : list (list sec_result) := [[(1, hex_bytes "00")]].
+  Example noreset_refuted :
+    rmap (fun ib => (length (ib_results ib), asb_results 1 (ib_results ib)))
+         (compute_hmac_noreset key9173 [(1, ippt)] (set_ib_results a1_ib stale)) = Ok (2%nat, Ok [(1, hex_bytes "00")]) /\
+    rmap ib_results (compute_hmac key9173 [(1, ippt)] (set_ib_results a1_ib stale)) = Ok [[(1, signature)]].
+  Proof. split; vm_compute; reflexivity. Qed.
+
   (* beyond bit 2: scope flags 8 are serialized raw, the RFC's canonical form clears the unassigned bit *)
   Example flags_beyond_bit2 :
     ippt_create 8 (Some primary_block) (Some a1_sec_header) payload_block = (hex_bytes "08" ++ tl ippt)%list /\
@@ -180,6 +226,9 @@ Print Assumptions C16_ippt_raw_flags.
 Print Assumptions C16_result_shape.
 Print Assumptions C16_result_shape_generic.
 Print Assumptions C16_unsupported_variant_panics.
+Print Assumptions C16_results_ignored.
+Print Assumptions C16_resign_replaces.
+Print Assumptions C16_resign_pipeline.
 Print Assumptions C16_asb_layout.
 Print Assumptions C16_bib_pipeline.
 Print Assumptions C16_bib_block.
